@@ -58,6 +58,15 @@ CLAIMED = {
     "C09": ("Proved: the five fields `updown list` writes for a well-formed line are parsed back to exactly that line (split/join and decimal round trips, ranges a / a-b); every line computed from a valid sequence is well-formed, so reading the CSV row of a sequence gives the line of the sequence; consequently the command core returns the same output for all four csv/fasta combinations, one row per query in order. Correspondence with the real commands: updown list derives the CSVs, topranking runs in the four combinations and the outputs must be byte-identical; the fasta/fasta run is compared with the Coq model.",
             "Coq proof (parse-print round trip at field level) + four-combination correspondence check",
             "encoding/csv (line -> fields) is a trusted library; IDs without , \" CR LF.", "5 C09"),
+    "C12": ("PARTIAL by nature. Proved: (i) the index-keyed re-ordering writer writes the input order for ANY arrival order (even with repeats) provided every arrival carries its own index and every index arrives - an invariant over the map/counter/drain loop; (ii) result arrays indexed by query position end up identical for any completion order; (iii) keys collected from a map in any iteration order and sorted by a key that totally orders them come out the same (uniqueness of the sorted permutation). Observed on the real binary (verif tag): every command's bytes under seeded scheduling jitter at the worker send sites, --threads 1..16, GOMAXPROCS 1..16 and repeated runs equal the single-threaded reference run; a -race build repeats a subset and must report no data race; the evidence counts the runs in which completion order really differed from arrival order.",
+            "Coq proof (invariants over arrival/completion/map order) + schedule exploration of the binary (seeded jitter hook, thread counts, race detector)",
+            "PARTIAL: absence of data races and of schedule-dependent deadlock is observed, not proved; the instantiation of (i)-(iii) at each writer/sort of the code is by reading the model, the byte comparison ties it to the code.", "5 C12"),
+    "C18": ("PARTIAL by nature: the model carries the DECISION to refuse. Proved: a sequence line with a symbol outside the alphabet anywhere in a file, a file without a leading header, an empty or blank-only stream, a record whose length differs from the alignment width (at a boundary or at the end) all yield an error, never output; two records in --reference, reference/alignment width mismatch, a window outside 1..reference length or start > end, and topranking without a size/dist option are refused; the SAM header hand-off (reader goroutine vs caller, unbuffered rendezvous) has no reachable deadlock state (kernel-enumerated), while the pinned snapshot's did (refuted witness). Observed: the built binary under a timeout, every listed corruption x record position x input file x command; exit 0 or a timeout is a violation.",
+            "Coq proof (reader/arguments refusal lemmas, enumerated hand-off LTS) + fault enumeration on the binary under a timeout",
+            "PARTIAL: exit status, promptness and 'no partial output presented as success' are properties of the process and are observed; exit status 2 (panic) counts as non-zero.", "5 C18"),
+    "C19": ("The write call sites of every function that writes to an output destination are extracted from the source on every run by a go/ast scan (gen/WriteSites.v: function, line, call, checked?); the kernel evaluates that every site is checked and that the scan found the thirteen writers the property names; generic theorem: if every site a run hits is checked, a failure of ANY write makes the run fail (and a dropped site would hide one). Enumerated on the code: for every exported entry point taking an io.Writer, the k-th Write fails for EVERY k up to the number of writes of the run and the entry point must return an error; the binary is run with stdout on /dev/full for every command.",
+            "Coq proof over a model regenerated from the source by a translator (go/ast) + exhaustive fault enumeration at every write position",
+            "The go/ast classification (assigned error tested by the following statement, which returns or sends on a channel) is syntactic and trusted; propagation from a checked site through the error channel to the caller is observed by the fault enumeration, not proved.", "5 C19"),
     "C03": ("For every pair of byte files the Coq model of `snps` (reader over the dumped encoding tables, bitwise "
             "test, decoder, row printer) is proved equal to the specification command built from the IUPAC meaning "
             "of the symbols (C03_command_eq_spec), with soundness, completeness, ascending order and "
